@@ -148,10 +148,12 @@ def ob_kernel_rate(ctx):
 
 
 # ---------------------------------------------------------------------- release scenarios
-def release_world(ctx, k, released_before=0, other=True, cap=None, real_kernel=False, pending=False, immature=False):
+def release_world(ctx, k, released_before=0, other=True, cap=None, real_kernel=False, pending=False, immature=False, real_sub=False):
     W = HubWorld(ctx, n_validators=1, n_delegations=1)
     I = W.I
     I.contracts_on = {'SignedInt::from_subtraction', 'Uint256*Decimal256'} if (MERGE_RATE or real_kernel) else set(CONTRACTS)
+    if real_sub:
+        I.contracts_on = I.contracts_on - {'SignedInt::from_subtraction'}      # the real MIR of from_subtraction is executed
     I.trace_calls = {'calculate_new_withdraw_rate'}
     if MERGE_RATE:
         I.auto_merge = {'calculate_new_withdraw_rate'}
@@ -222,9 +224,9 @@ def edge_free(W, I, st, arrived, expected_b, expected_s, k):
     return z3.And(z3.Or(S_b <= 0, k * S_b < E), z3.Or(S_s <= 0, k * S_s < E))
 
 
-def ob_release(k, released_before, cap=None, light=False, real_kernel=False, pending=False, immature=False, only=None):
+def ob_release(k, released_before, cap=None, light=False, real_kernel=False, pending=False, immature=False, only=None, real_sub=False):
     def ob(ctx):
-        W = release_world(ctx, k, released_before, cap=cap, real_kernel=real_kernel, pending=pending, immature=immature)
+        W = release_world(ctx, k, released_before, cap=cap, real_kernel=real_kernel, pending=pending, immature=immature, real_sub=real_sub)
         I = W.I
         st0 = W.st
         # ghost: RC = still unpaid claims on already released batches of everybody (caller's part explicit)
@@ -264,7 +266,7 @@ def ob_release(k, released_before, cap=None, light=False, real_kernel=False, pen
                 new_s = new_s + fl(I, st, h['stsei'], rs2)
                 pay_c = pay_c + fl(I, st, h['w_c']['stsei'], rs2) + fl(I, st, h['w_c']['bsei'], rb2)
             if not is_ok(res):
-                if light or only is not None:
+                if light or (only is not None and 'release:fails' not in only):
                     continue
                 # the only admissible failure: nothing (>= 1 unit) to withdraw
                 ctx.require(st, pay_c < 1, 'a claimant whose matured claims are worth at least one unit is paid (withdraw never fails for funds)',
@@ -468,7 +470,7 @@ def ob_twice(ctx):
 
 OBLIGATIONS = [('kernel_from_subtraction', ob_kernel_from_subtraction), ('kernel_uint256_mul_decimal256', ob_kernel_mul),
                ('kernel_new_withdraw_rate', ob_kernel_rate),
-               ('release_k1', ob_release(1, 0, real_kernel=True)), ('release_k1_old1', ob_release(1, 1, real_kernel=True)),
+               ('release_k1', ob_release(1, 0, real_kernel=True)), ('release_k1_old1', ob_release(1, 1, real_kernel=True, real_sub=True)),
                ('release_k1_immature', ob_release(1, 0, real_kernel=True, pending=True, immature=True)), ('release_k2', ob_release(2, 0, light=True)),
                ('release_k3', ob_release(3, 0, light=True)), ('order_independence', ob_order_frame), ('paid_once', ob_twice)]
 
